@@ -98,6 +98,9 @@ func (l *Livesim) Get(url string) Resp { return serve(l.Srv.Router, "GET", url, 
 // panic in the handler is observed together with its site. url must start with /livesim2/.
 func (l *Livesim) GetRaw(url string) Resp { return serve(l.Srv.LiveRouter, "GET", url, nil, nil) }
 
+// DoRaw issues a request with any method to the /livesim2 sub-router (no Recoverer middleware), like GetRaw.
+func (l *Livesim) DoRaw(method, url string) Resp { return serve(l.Srv.LiveRouter, method, url, nil, nil) }
+
 // Do issues an arbitrary request through the full router.
 func (l *Livesim) Do(method, url string, body io.Reader, hdr map[string]string) Resp {
 	return serve(l.Srv.Router, method, url, body, hdr)
